@@ -660,3 +660,90 @@ def c13_writers(v):
             walk(b, False)
         v.oblige(st, z3.BoolVal(not outside), "C13:lemma:lock-discipline:" + fname,
                  "accesses to guarded fields outside `with self.lock` at relative lines %s" % outside)
+
+
+# ---------------------------------------------------------------------------------------------------- C20 (structural)
+
+SENSITIVE_CALLS = {'set_coinstate', 'add_transaction_to_pool', 'save_block', 'flush_blocks', 'flush_blocks_to_disk',
+                   'add_block_to_buffer', 'write_blocks_to_disk'}
+SENSITIVE_ATTRS = {'write_buffer', 'transaction_pool_WRITE', 'coinstate_WRITE', 'last_known_valid_coinstate_WRITE'}
+
+
+def _sensitive_ops(fn_node):
+    """names of state-changing operations (chain state, pool, block store) occurring textually in a function body"""
+    import ast
+    ops = set()
+    for n in ast.walk(fn_node):
+        if isinstance(n, ast.Call) and isinstance(n.func, ast.Attribute) and n.func.attr in SENSITIVE_CALLS:
+            ops.add(n.func.attr)
+        if isinstance(n, ast.Attribute) and n.attr == 'write_buffer':
+            ops.add('write_buffer')
+        if isinstance(n, ast.Attribute) and isinstance(n.ctx, (ast.Store, ast.Del)) and n.attr in (
+                'coinstate', 'transaction_pool', 'last_known_valid_coinstate'):
+            ops.add(n.attr + '=')
+    return ops
+
+
+@LM.lemma("C20.handler-frames", props=["C20"])
+def c20_handler_frames(v):
+    """Which per-connection code can reach an operation that changes chain state, pool or block store: only the block and
+    transaction handlers (and the dispatchers above them); their rejecting paths change nothing by their own contracts
+    (C09, C13).  Every other message handler, the framing code and all decoders reach none.  Computed over the real
+    AST of remote_peer.py / messages.py / serialization.py / datatypes.py / signing.py (call graph through self.<method>,
+    self.receiver / self.peer, and module-level functions)."""
+    import ast, inspect
+    import skepticoin.networking.local_peer  # noqa (import cycle)
+    import skepticoin.networking.remote_peer as rp
+    import skepticoin.networking.messages as msg
+    import skepticoin.serialization as ser
+    import skepticoin.datatypes as dt
+    import skepticoin.signing as sg
+    st = State()
+    tree = ast.parse(inspect.getsource(rp))
+    methods = {}
+    for cls in [n for n in tree.body if isinstance(n, ast.ClassDef)]:
+        for f in [n for n in cls.body if isinstance(n, ast.FunctionDef)]:
+            methods[f.name] = f         # method names are unique across the classes of this module (checked below)
+    names = [f.name for cls in tree.body if isinstance(cls, ast.ClassDef) for f in cls.body if isinstance(f, ast.FunctionDef)
+             and f.name not in ('__init__', 'step')]
+    v.oblige(st, z3.BoolVal(len(names) == len(set(names))), "C20:lemma:method-names-unique", "call graph by method name is unambiguous")
+    direct = {m: _sensitive_ops(f) for m, f in methods.items()}
+    calls = {}
+    for m, f in methods.items():
+        cs = set()
+        for n in ast.walk(f):
+            if isinstance(n, ast.Call) and isinstance(n.func, ast.Attribute) and n.func.attr in methods:
+                cs.add(n.func.attr)
+        calls[m] = cs
+    reach = {m: set(ops) for m, ops in direct.items()}
+    changed = True
+    while changed:
+        changed = False
+        for m in methods:
+            for c in calls[m]:
+                if not reach[c] <= reach[m]:
+                    reach[m] |= reach[c]
+                    changed = True
+    may_change = sorted(m for m in methods if reach[m])
+    allowed = {'handle_block_received', 'handle_transaction_received', 'handle_data_message_received',
+               'handle_message_received', 'handle_message_data', 'receive', 'handle_receive_data'}
+    v.oblige(st, z3.BoolVal(set(may_change) <= allowed), "C20:lemma:only-block-and-transaction-handlers-reach-node-state",
+             "methods that can reach a state-changing operation: %s" % may_change)
+    v.oblige(st, z3.BoolVal(bool(direct.get('handle_block_received')) and bool(reach.get('handle_transaction_received'))),
+             "C20:lemma:scan-is-not-vacuous", "the scan does see the two handlers that change state")
+    # decoders and framing never touch node state
+    for mod in (msg, ser, dt, sg):
+        src = inspect.getsource(mod)
+        t = ast.parse(src)
+        hits = set()
+        for f in ast.walk(t):
+            if isinstance(f, ast.FunctionDef):
+                hits |= _sensitive_ops(f)
+        mentions = [w for w in ('chain_manager', 'DefaultBlockStore', 'network_manager') if w in src]
+        v.oblige(st, z3.BoolVal(not hits and not mentions), "C20:lemma:decoders-are-state-free:" + mod.__name__.split('.')[-1],
+                 "state-changing operations / node objects mentioned: %s %s" % (sorted(hits), mentions))
+    # protocol order and unknown types end in an exception (hence, by the selector handler's contract, in a disconnect)
+    hm = methods['handle_message_received']
+    raises = [n for n in ast.walk(hm) if isinstance(n, ast.Raise)]
+    v.oblige(st, z3.BoolVal(len(raises) >= 2 and isinstance(hm.body[-1], ast.Raise)),
+             "C20:lemma:unknown-message-or-out-of-order-raises", "handle_message_received ends in `raise` and refuses non-Hello first")
